@@ -241,6 +241,8 @@ pub fn declare_counters(ev: &mut Evidence, mode: Mode) {
     "rename_chain",
     "remove_absent",
     "remove_twice",
+    "more_than_100_modules",
+    "import_cycle_of_length_3_or_more",
   ]);
   ev.probes.declare(&[
     "diagnostics_nonempty",
